@@ -12,7 +12,6 @@ package main
 
 import (
 	"fmt"
-	"go/ast"
 	"go/token"
 	"go/types"
 	"sort"
@@ -23,150 +22,255 @@ import (
 
 func ruleR17d(c *Ctx) {
 	const rule = "R17d"
-	type pair struct {
-		typ     string // builder type
-		decoder string // function holding the type switch
-		subject string // name of the switched variable / parameter
-		inCase  string // for an inline switch: the operator case that contains it
+	mm := c.MustFn(rule, pkgQuery, "mapMapToExpression")
+	if mm == nil {
+		return
 	}
-	pairs := []pair{
-		{"set", "parseSet", "value", ""},
-		{"keyValue", "parseKeyValue", "m", ""},
-		{"not", "mapMapToExpression", "value", "$not"},
-	}
-	for _, p := range pairs {
-		accepted, pos := decoderKinds(c, rule, p.decoder, p.subject, p.inCase)
-		if accepted == nil {
-			continue
+	// operator and operand of the clause being decoded: the results of singleKey(m)
+	var opVal, operand ssa.Value
+	for _, b := range mm.Blocks {
+		for _, ins := range b.Instrs {
+			ex, ok := ins.(*ssa.Extract)
+			if !ok {
+				continue
+			}
+			if call, ok := ex.Tuple.(*ssa.Call); ok {
+				if g := staticCallee(call); g != nil && g.Name() == "singleKey" {
+					switch ex.Index {
+					case 0:
+						opVal = ex
+					case 1:
+						operand = ex
+					}
+				}
+			}
 		}
-		mfn := c.MustFn(rule, pkgQuery, p.typ+".MarshalJSON")
+	}
+	if opVal == nil || operand == nil {
+		c.undecided(rule, "anchor:mapMapToExpression:operator-and-operand", mm.Pos(), "the operator and operand of a clause are not obtained from singleKey")
+		return
+	}
+	// the operators the decoder distinguishes
+	var ops []string
+	opBit := map[string]uint64{}
+	for _, b := range mm.Blocks {
+		for _, ins := range b.Instrs {
+			if bo, ok := ins.(*ssa.BinOp); ok && bo.Op == token.EQL && (bo.X == opVal || bo.Y == opVal) {
+				other := bo.Y
+				if other == opVal {
+					other = bo.X
+				}
+				if sv, ok := constString(other); ok {
+					if _, dup := opBit[sv]; !dup && len(ops) < 60 {
+						opBit[sv] = 1 << uint(len(ops))
+						ops = append(ops, sv)
+					}
+				}
+			}
+		}
+	}
+	if len(ops) < 4 {
+		c.undecided(rule, "anchor:mapMapToExpression:operator-cases", mm.Pos(), fmt.Sprintf("only %d operator comparisons found", len(ops)))
+		return
+	}
+	all := uint64(1)<<uint(len(ops)) - 1
+	// where the operand goes, per operator: type assertions on it, and package functions it is handed to
+	accepted := map[string]map[string]bool{}
+	where := map[string]string{}
+	addKinds := func(s uint64, kinds map[string]bool, what string) {
+		if s == all {
+			return // not under a specific operator
+		}
+		for _, op := range ops {
+			if s&opBit[op] == 0 {
+				continue
+			}
+			if accepted[op] == nil {
+				accepted[op] = map[string]bool{}
+			}
+			for k := range kinds {
+				accepted[op][k] = true
+			}
+			where[op] = what
+		}
+	}
+	pr := &PathRule{
+		Edge: func(pc *PathCtx, s uint64, from *ssa.BasicBlock, si int) (uint64, bool) {
+			for _, f := range pc.edgeFacts(from, si) {
+				if f.X != opVal && f.Y != opVal {
+					continue
+				}
+				other := f.Y
+				if other == opVal {
+					other = f.X
+				}
+				sv, ok := constString(other)
+				if !ok {
+					continue
+				}
+				if f.Eq {
+					if s&opBit[sv] == 0 {
+						return s, false
+					}
+					s = opBit[sv]
+				} else {
+					s &^= opBit[sv]
+				}
+			}
+			return s, true
+		},
+		Step: func(pc *PathCtx, s uint64, ins ssa.Instruction) uint64 {
+			switch x := ins.(type) {
+			case *ssa.TypeAssert:
+				if x.X == operand {
+					addKinds(s, assertedKinds(mm, operand), "mapMapToExpression")
+				}
+			case *ssa.Call:
+				g := staticCallee(x)
+				if g == nil || fnPkgPath(g) != pkgQuery || len(g.Blocks) == 0 {
+					return s
+				}
+				for i, a := range x.Call.Args {
+					if a == operand && i < len(g.Params) {
+						addKinds(s, assertedKinds(g, g.Params[i]), g.Name())
+					}
+				}
+			}
+			return s
+		},
+	}
+	c.RunPaths(mm, all, pr)
+
+	// what each builder emits, under which operators
+	type emitter struct {
+		typ string
+		ops []string
+	}
+	var emitters []emitter
+	opKV := c.Field(pkgQuery, "keyValue", "operator")
+	opSet := c.Field(pkgQuery, "set", "operator")
+	kvOps, setOps := map[string]bool{}, map[string]bool{}
+	for _, fn := range c.FuncsIn(pkgQuery) {
+		for _, b := range fn.Blocks {
+			for _, ins := range b.Instrs {
+				if v, _, ok := storeToField(ins, opKV); ok {
+					for _, sv := range constStringsThroughParams(c, v, fn, 0) {
+						kvOps[sv] = true
+					}
+				}
+				if v, _, ok := storeToField(ins, opSet); ok {
+					for _, sv := range constStringsThroughParams(c, v, fn, 0) {
+						setOps["$"+sv] = true
+					}
+				}
+			}
+		}
+	}
+	keys := func(m map[string]bool) []string {
+		var out []string
+		for k := range m {
+			out = append(out, k)
+		}
+		sort.Strings(out)
+		return out
+	}
+	emitters = append(emitters, emitter{"set", keys(setOps)}, emitter{"keyValue", keys(kvOps)}, emitter{"not", []string{"$not"}})
+	for _, em := range emitters {
+		mfn := c.MustFn(rule, pkgQuery, em.typ+".MarshalJSON")
 		if mfn == nil {
 			continue
 		}
+		key := em.typ + ".MarshalJSON:operand-kind-accepted-by-the-decoder"
 		operands := marshalledOperands(c, mfn)
-		key := p.typ + ".MarshalJSON:operand-kind-accepted-by-" + p.decoder
 		if len(operands) == 0 {
 			c.undecided(rule, key, mfn.Pos(), "the operand written under the operator key could not be traced to a json.Marshal of a map")
 			continue
 		}
+		if len(em.ops) == 0 {
+			c.undecided(rule, key, mfn.Pos(), "no operator emitted by this builder was found")
+			continue
+		}
 		var emitted []string
-		var badKinds []string
-		var badPos token.Pos
 		for _, op := range operands {
-			for _, k := range kindsOf(op) {
-				emitted = append(emitted, k)
-				if !accepted[k] {
-					badKinds = append(badKinds, k)
-					if badPos == token.NoPos {
-						badPos = op.Pos()
-					}
-				}
-			}
+			emitted = append(emitted, kindsOf(op)...)
 		}
 		sort.Strings(emitted)
 		emitted = dedupStrings(emitted)
-		var acc []string
-		for k := range accepted {
-			acc = append(acc, k)
-		}
-		sort.Strings(acc)
-		if len(badKinds) == 0 {
-			c.ok(rule, key, pos, fmt.Sprintf("emits %v; %s accepts %v", emitted, p.decoder, acc))
-		} else {
-			if !badPos.IsValid() {
-				badPos = mfn.Pos()
-			}
-			sort.Strings(badKinds)
-			c.bad(rule, key, badPos, fmt.Sprintf("query.%s.MarshalJSON can write %v under its operator (a nil slice, map or pointer encodes as null) but %s only accepts %v: a cursor carrying such a filter is handed out and then rejected when the client sends it back", p.typ, dedupStrings(badKinds), p.decoder, acc))
-		}
-	}
-}
-
-// decoderKinds: the JSON kinds accepted by the type switch on `subject` in the decoder (inside the case
-// clause of operator inCase when given).
-func decoderKinds(c *Ctx, rule, fnName_, subject, inCase string) (map[string]bool, token.Pos) {
-	p, fd := c.MustFuncDecl(rule, pkgQuery, fnName_)
-	if fd == nil {
-		return nil, token.NoPos
-	}
-	var scope ast.Node = fd.Body
-	if inCase != "" {
-		scope = nil
-		for _, sw := range switchesIn(fd.Body) {
-			for _, cl := range clausesOf(sw.Body) {
-				for _, e := range cl.Exprs {
-					if v := constVal(p, e); v != nil && strings.Trim(v.ExactString(), `"`) == inCase {
-						scope = &ast.BlockStmt{List: cl.Body}
-					}
-				}
-			}
-		}
-		if scope == nil {
-			c.undecided(rule, "anchor:"+fnName_+":case-"+inCase, fd.Pos(), "operator case not found")
-			return nil, token.NoPos
-		}
-	}
-	for _, ts := range typeSwitchesIn(scope) {
-		// subject: `x := value.(type)` or `value.(type)`
-		var ta *ast.TypeAssertExpr
-		switch a := ts.Assign.(type) {
-		case *ast.AssignStmt:
-			if len(a.Rhs) == 1 {
-				ta, _ = a.Rhs[0].(*ast.TypeAssertExpr)
-			}
-		case *ast.ExprStmt:
-			ta, _ = a.X.(*ast.TypeAssertExpr)
-		}
-		if ta == nil {
-			continue
-		}
-		id, ok := ta.X.(*ast.Ident)
-		if !ok || id.Name != subject {
-			continue
-		}
-		kinds := map[string]bool{}
-		for _, st := range ts.Body.List {
-			cc, ok := st.(*ast.CaseClause)
-			if !ok || cc.List == nil {
-				continue // default: an error branch in these decoders
-			}
-			// a clause that only returns an error does not accept the kind
-			if clauseOnlyFails(p, cc) {
+		var problems []string
+		var okDesc []string
+		for _, op := range em.ops {
+			acc := accepted[op]
+			if acc == nil {
+				problems = append(problems, fmt.Sprintf("the decoder does not look at the operand of %s", op))
 				continue
 			}
-			for _, e := range cc.List {
-				if tv, ok := p.TypesInfo.Types[e]; ok {
-					if tv.IsNil() {
-						kinds["null"] = true
-						continue
-					}
-					if k := jsonKindOfType(tv.Type); k != "" {
-						kinds[k] = true
-					}
+			for _, k := range emitted {
+				if !acc[k] {
+					problems = append(problems, fmt.Sprintf("%s under %s, while %s accepts only %v", k, op, where[op], keys(acc)))
+				}
+			}
+			okDesc = append(okDesc, fmt.Sprintf("%s: %s accepts %v", op, where[op], keys(acc)))
+		}
+		if len(problems) == 0 {
+			c.ok(rule, key, mfn.Pos(), fmt.Sprintf("emits %v; %s", emitted, strings.Join(okDesc, "; ")))
+		} else {
+			c.bad(rule, key, operands[0].Pos(), fmt.Sprintf("query.%s.MarshalJSON can write %s (a nil slice, map or pointer encodes as null): a cursor carrying such a filter is handed out and then rejected when the client sends it back", em.typ, strings.Join(problems, "; ")))
+		}
+	}
+}
+
+// assertedKinds: the JSON kinds for which a decoder goes on with the value: the types it asserts the value to
+// (type switches are chains of comma-ok assertions), not counting an assertion whose success branch only fails,
+// and `nil` when the value is compared with nil.
+func assertedKinds(fn *ssa.Function, v ssa.Value) map[string]bool {
+	kinds := map[string]bool{}
+	isV := func(x ssa.Value) bool { return x == v || stripLoadOfParamCell(x) == v }
+	for _, b := range fn.Blocks {
+		for _, ins := range b.Instrs {
+			switch x := ins.(type) {
+			case *ssa.TypeAssert:
+				if !isV(x.X) {
+					continue
+				}
+				k := jsonKindOfType(x.AssertedType)
+				if k == "" {
+					continue
+				}
+				if x.CommaOk && okBranchOnlyFails(x) {
+					continue
+				}
+				kinds[k] = true
+			case *ssa.BinOp:
+				if (x.Op == token.EQL || x.Op == token.NEQ) && ((isV(x.X) && isNilConst(x.Y)) || (isV(x.Y) && isNilConst(x.X))) {
+					kinds["null"] = true
 				}
 			}
 		}
-		return kinds, ts.Pos()
 	}
-	c.undecided(rule, "anchor:"+fnName_+":type-switch-on-"+subject, fd.Pos(), "the decoder has no type switch on "+subject)
-	return nil, token.NoPos
+	return kinds
 }
 
-func clauseOnlyFails(p interface{}, cc *ast.CaseClause) bool {
-	if len(cc.Body) != 1 {
-		return false
+// okBranchOnlyFails: the block taken when the comma-ok assertion succeeds immediately returns a non-nil error.
+func okBranchOnlyFails(ta *ssa.TypeAssert) bool {
+	for _, r := range *ta.Referrers() {
+		ex, ok := r.(*ssa.Extract)
+		if !ok || ex.Index != 1 {
+			continue
+		}
+		for _, rr := range *ex.Referrers() {
+			iff, ok := rr.(*ssa.If)
+			if !ok || iff.Cond != ssa.Value(ex) {
+				continue
+			}
+			tb := iff.Block().Succs[0]
+			if ret, ok := tb.Instrs[len(tb.Instrs)-1].(*ssa.Return); ok && len(ret.Results) > 0 && len(tb.Instrs) <= 6 {
+				if errNilness(ret.Results[len(ret.Results)-1]) == 2 {
+					return true
+				}
+			}
+		}
 	}
-	ret, ok := cc.Body[0].(*ast.ReturnStmt)
-	if !ok || len(ret.Results) == 0 {
-		return false
-	}
-	last := ret.Results[len(ret.Results)-1]
-	call, ok := last.(*ast.CallExpr)
-	if !ok {
-		return false
-	}
-	s := types.ExprString(call.Fun)
-	return strings.Contains(s, "Errorf") || strings.Contains(s, "errors.New") || strings.Contains(s, "Wrap")
+	return false
 }
 
 // jsonKindOfType: the JSON kind encoding/json decodes into this Go type when the target is `any`.
